@@ -104,7 +104,17 @@ func TestVerif_C10(t *testing.T) {
 			if rp.Case.Kind == "growth" {
 				c10NestGrowth(sup, rsink, *rp.Case.Nest)
 			} else {
-				sup.Submit(c10MsgOfCase(*rp.Case))
+				m := c10MsgOfCase(*rp.Case)
+				// a key names the step it was observed at: a replay runs that step only (after a step that does not
+				// return, the later steps of the same input each cost the full time allowance again)
+				if (m.typ == 'S' || m.typ == 'N') && m.mask == 0 {
+					for st, name := range c10StepNames["src"] {
+						if strings.Contains(rp.Key, "/"+name+"/") {
+							m.mask = 1 << st
+						}
+					}
+				}
+				sup.Submit(m)
 				sup.Drain()
 			}
 			sup.stop()
@@ -253,6 +263,22 @@ func TestVerif_C10(t *testing.T) {
 		}
 	}
 
+	// ---- part 2b: step-limit alignment (never-ending async body started at every position around a small limit)
+	alignLimits := []int{1, 7, 16}
+	res.Bounds["step_limit_alignment"] = "limits 1, 7, 16; ASYNC{JUMP 0} as instruction 1..limit+4 of the run and of an outer async body"
+	for _, lim := range alignLimits {
+		files, labels := c10AlignFiles(lim)
+		for i := range files {
+			if !mine() {
+				continue
+			}
+			if !submit(&c10Msg{typ: 'B', prep: byte(128 + lim), data: files[i], steps: 2, label: labels[i]}) {
+				break
+			}
+			res.Distinct++
+		}
+	}
+
 	// ---- part 3: instruction sequences
 	seqLen := 2
 	if p.Thorough {
@@ -370,14 +396,14 @@ seqs:
 	}
 	res.Bounds["token_sequence_length"] = tokLen
 	res.Bounds["token_alphabet"] = len(c10Tokens)
-	res.Bounds["token_contexts"] = fmt.Sprintf("%d for sequences shorter than the bound, route body only at the bound", len(c10TokCtxs))
+	res.Bounds["token_contexts"] = fmt.Sprintf("%d for sequences of up to 2 tokens, the first three up to the bound - 1, route body only at the bound", len(c10TokCtxs))
 	var trec func(seq []string) bool
 	trec = func(seq []string) bool {
 		if len(seq) > 1 || (len(seq) == 1 && p.Shard == 0) { // length-1 sequences once
 			body := strings.Join(seq, " ")
 			for ci, cx := range c10TokCtxs {
-				if len(seq) == tokLen && ci != 1 {
-					continue // the longest sequences only in the route-body context
+				if (len(seq) == tokLen && ci != 1) || (len(seq) > 2 && ci > 2) {
+					continue // the longest sequences only in the route-body context; sub-parser contexts up to 2 tokens
 				}
 				if !submit(&c10Msg{typ: 'S', data: []byte(cx.Pre + body + cx.Post), steps: 5, label: fmt.Sprintf("token sequence %q (%s)", seq, cx.Name)}) {
 					return false
